@@ -132,6 +132,12 @@ func (m matcherHeap) findReplacement(metricName string, matcher []*labels.Matche
 	if !ok {
 		return nil, false
 	}
+	// The subset test below keys matchers by label name. Two different matchers
+	// on one label cannot be represented that way (the last one would stand for
+	// both), so such selectors are not merged.
+	if hasConflictingMatchers(top) || hasConflictingMatchers(matcher) {
+		return nil, false
+	}
 
 	matcherSet := matcherToMap(matcher)
 	topSet := matcherToMap(top)
@@ -153,4 +159,16 @@ func (m matcherHeap) findReplacement(metricName string, matcher []*labels.Matche
 	}
 
 	return top, true
+}
+
+// hasConflictingMatchers reports whether a label name occurs with two different matchers.
+func hasConflictingMatchers(matchers []*labels.Matcher) bool {
+	seen := make(map[string]*labels.Matcher, len(matchers))
+	for _, m := range matchers {
+		if prev, ok := seen[m.Name]; ok && (prev.Type != m.Type || prev.Value != m.Value) {
+			return true
+		}
+		seen[m.Name] = m
+	}
+	return false
 }
